@@ -16,6 +16,10 @@ def nrows_counter(line):
     return tuple(t[0]) if t else None, Counter(tuple(norm_tok(c) for c in r) for r in t[1:])
 
 
+import collections as _collections
+_Point = _collections.namedtuple('_Point', ['x', 'y'])      # module level: rows go through pickle in chunked sorts
+
+
 def run(ctx):
     import petl as etl
     ctx.rule = ('pairs of rectangular tables over one header (1-3 fields, 0-6 rows) with cells from a 10-value pool (None, '
@@ -170,6 +174,52 @@ def run(ctx):
         ('diff[1]', 2, lambda a, b: etl.diff(a, b)[1]), ('recordcomplement', 2, lambda a, b: etl.recordcomplement(a, b)),
         ('hashcomplement', 2, lambda a, b: etl.hashcomplement(a, b)), ('hashintersection', 2, lambda a, b: etl.hashintersection(a, b)),
     ], 320 if ctx.thorough() else 80)
+    # ---- a set-operation view is a description of its operands, not of what they held when it was first read: a pass after an
+    # edit of either operand reflects the edit (the hash variants keep nothing between passes)
+    for ci in range(120 if ctx.thorough() else 30):
+        mk = lambda: [['k', 'v']] + [[rng.choice([1, 2, 3]), rng.choice([0, 1])] for _ in range(rng.choice([1, 2, 4]))]
+        A, B = mk(), mk()
+        for name in ('hashcomplement', 'hashintersection', 'complement', 'intersection'):
+            kw = {'cache': False} if not name.startswith('hash') else {}
+            v = getattr(etl, name)(A, B, **kw)
+            first = list(v)
+            side = rng.choice(['a', 'b'])
+            T_ = A if side == 'a' else B
+            edit = rng.choice(['append', 'remove', 'replace'])
+            saved = [list(r) for r in T_]
+            if edit == 'append':
+                T_.append(list(rng.choice((A if side == 'b' else B)[1:])))
+            elif edit == 'remove' and len(T_) > 1:
+                del T_[rng.randrange(1, len(T_))]
+            elif len(T_) > 1:
+                T_[rng.randrange(1, len(T_))] = [9, 9]
+            second = util.run_show(lambda: v)
+            fresh = util.run_show(lambda: getattr(etl, name)(A, B, **kw))
+            T_[:] = saved
+            ctx.case(('edit-between-passes', name, repr(A), repr(B), side, edit))
+            ctx.count('edit-between-passes')
+            if second != fresh:
+                ctx.spec_fail('%s|stale-after-edit' % name, '%s: a pass made after an operand was edited is not what a fresh view of the same operands gives' % name,
+                              {'op': name, 'a': repr(A), 'b': repr(B), 'edited': side, 'edit': edit, 'second pass': second, 'fresh view': fresh})
+    # ---- cells that are records (namedtuples) holding None or values of several types
+    for ci in range(120 if ctx.thorough() else 30):
+        cells = [_Point(None, 1), _Point(2, 1), _Point(2, 'a'), _Point('a', None), (2, 1), _Point(1, 1)]
+        A = [['p', 'v']] + [[rng.choice(cells), rng.choice([0, 1])] for _ in range(rng.choice([2, 3, 5]))]
+        B = [['p', 'v']] + [[rng.choice(cells), rng.choice([0, 1])] for _ in range(rng.choice([1, 2, 4]))]
+        ca, cb = Counter(tuple(r) for r in A[1:]), Counter(tuple(r) for r in B[1:])
+        try:
+            comp = Counter(tuple(r) for r in list(etl.complement(A, B))[1:])
+            inter = Counter(tuple(r) for r in list(etl.intersection(A, B))[1:])
+            hcomp = Counter(tuple(r) for r in list(etl.hashcomplement(A, B))[1:])
+            ok = comp == ca - cb and inter == ca & cb and hcomp == comp
+        except Exception as e:   # noqa
+            ok, comp, inter = False, repr(e), None
+        ctx.case(('record-cells', repr(A), repr(B)))
+        ctx.count('record-cells')
+        if not ok:
+            ctx.spec_fail('complement|record-cells', 'complement / intersection on cells that are records (tuple subclasses) are not the multiset operations',
+                          {'A': repr(A), 'B': repr(B), 'complement': repr(comp), 'intersection': repr(inter)})
+
     util.exotic_key_cases(etl, rng, ctx, 'C08', 200 if ctx.thorough() else 50)
     util.positional_call_cases(etl, rng, ctx, ['complement', 'intersection'], 120 if ctx.thorough() else 36, 2)
 
